@@ -7,6 +7,7 @@ import math
 import re
 import struct
 import itertools
+import functools
 from datetime import datetime, timedelta
 
 from hypothesis import strategies as st
@@ -251,6 +252,8 @@ def _vbuild(rec):
                 'tuple': (1, 2), 'complex': 1j}[p]
     if k == 'list':
         return [_vbuild(x) for x in p]
+    if k == 'dtstr':
+        return p[1] if p[0] == 'dtstr' else S.dtstr_from(p, None)
     raise ValueError(k)
 
 
@@ -546,6 +549,667 @@ def reals_oracle(ctx, ex):
                       'real:special' if special else 'real:finite'))
 
 
+# ---------------------------------------------------------------------------
+# 5. typed values on ONE object through a sequence of documented routes
+#
+# State: two CIMInstance objects with typed properties (same name pool, other
+# types) and two standalone typed elements (CIMProperty / CIMParameter /
+# CIMQualifier / CIMQualifierDeclaration).  Every step gives values to
+# existing typed elements through one documented route.  After every step
+#  * each element holds None or objects of exactly the class of its CIM type
+#    (the property statement, independent of any model),
+#  * the objects equal a model that is advanced with *freshly built* equal
+#    values and a fresh cimvalue(v, type) / CIMProperty(name, v) call
+#    (rejected <=> the fresh conversion raises TypeError/ValueError; a
+#    rejected assignment leaves the old value),
+#  * no list object is the value of two different elements or of an element
+#    and of the source object of the step (cimvalue: "a new list is
+#    returned").
+
+_SEQ_NAMES = ['Pa', 'pB', 'PC_1', 'pd']
+_SEQ_TYPES = sorted(S.INT_TYPES) + ['real32', 'real64'] * 2 + \
+    ['datetime'] * 3 + ['boolean', 'string', 'char16', 'reference']
+_SEQ_ECLS = ['prop', 'param', 'qual', 'qdecl']
+# value kinds a keybinding / an inferred-type property value can be built of
+_KB_KINDS = ('bool', 'int', 'float', 'str', 'bytes', 'cimdt', 'char16',
+             'ipath')
+_INFER_KINDS = ('bool', 'str', 'cimdt', 'char16', 'ipath', 'cpath', 'inst',
+                'class', 'datetime', 'timedelta')
+_URIS = ['C.k=1', '//h/root:C.k="a"', '/:C.k=1', 'C', '', 'a b']
+_DTSTRS = ['20240229120000.000000+060', '00000002000000.000000:000',
+           '2024022912****.******+000', '20240229120000.000000+1000', '',
+           'abc', '99999999235959.999999:000']
+
+
+def _t2(k, strat):
+    return st.tuples(st.just(k), strat)
+
+
+@functools.lru_cache(maxsize=None)
+def _near_scalar(t):
+    "Value recipes that are (nearly) values of CIM type t"
+    if t in S.INT_TYPES:
+        lo, hi = S.INT_RANGE[t]
+        iv = st.one_of(
+            st.sampled_from([lo - 1, lo, hi, hi + 1, 0, 1, 7, -1, 300, -200]),
+            st.integers(lo, hi), st.integers(lo - 2 ** 16, hi + 2 ** 16))
+        others = [x for x in sorted(S.INT_TYPES) if x != t]
+        return st.one_of(
+            _t2('int', iv), _t2('int', iv),
+            st.sampled_from(others).flatmap(lambda t2: _t2(
+                'cim:' + t2, st.one_of(st.integers(0, 127), S.cim_int(t2)))),
+            st.sampled_from(others).flatmap(lambda t2: _t2(
+                'cim:' + t2, st.one_of(st.integers(0, 127), S.cim_int(t2)))),
+            _t2('cim:' + t, S.cim_int(t)),
+            _t2('float', st.one_of(
+                iv.map(float), st.sampled_from([1.5, -0.5, math.inf,
+                                                math.nan]))),
+            _t2('str', st.one_of(iv.map(str), st.sampled_from(
+                ['', ' 7 ', '0x10', '1.5', 'abc']))),
+            _t2('cim:real64', st.sampled_from([7.0, 300.0, 1.5, -1.0])),
+            _t2('bool', st.booleans()))
+    if t in S.REAL_TYPES:
+        other = 'real64' if t == 'real32' else 'real32'
+        return st.one_of(
+            _t2('float', st.one_of(st.sampled_from(
+                [0.0, -0.0, 2.5, 1e300, 0.1, math.inf, math.nan]),
+                st.floats())),
+            _t2('float', st.floats(width=32)),
+            _t2('int', st.one_of(st.integers(-9, 9),
+                                 st.sampled_from([2 ** 53 + 1, 10 ** 400]))),
+            _t2('cim:' + other, S.cim_real(other)),
+            _t2('cim:' + other, S.cim_real(other)),
+            _t2('cim:' + t, S.cim_real(t)),
+            _t2('cim:uint8', st.integers(0, 255)),
+            _t2('cim:sint64', S.cim_int('sint64')),
+            _t2('str', st.sampled_from(['1.5', '-2.5e3', 'inf', 'nan', '',
+                                        'abc', '7'])),
+            _t2('bool', st.booleans()))
+    if t == 'datetime':
+        return st.one_of(
+            _t2('datetime', S.timestamp()),
+            _t2('naive', S.timestamp(offsets=False)),
+            _t2('timedelta', S.interval()),
+            _t2('cimdt', S.datetime_scalar()),
+            _t2('dtstr', S.datetime_scalar()), _t2('dtstr', S.datetime_scalar()),
+            _t2('str', st.sampled_from(_DTSTRS)),
+            _t2('int', st.sampled_from([0, 20240229])),
+            _t2('cim:uint64', st.just(20240229120000)))
+    if t == 'boolean':
+        return st.one_of(
+            _t2('bool', st.booleans()), _t2('int', st.sampled_from([0, 1, 2])),
+            _t2('str', st.sampled_from(['', 'true', 'FALSE', 'x'])),
+            _t2('cim:uint8', st.sampled_from([0, 1])),
+            _t2('float', st.sampled_from([0.0, math.nan])))
+    if t in ('string', 'char16'):
+        return st.one_of(
+            _t2('str', S.cim_string(8)), _t2('str', S.cim_string(8)),
+            _t2('char16', S.char16()),
+            _t2('bytes', st.sampled_from([b'', b'a', b'\xc3\xa4', b'\xff'])),
+            _t2('cimdt', S.datetime_scalar()),
+            _t2('int', st.sampled_from([0, 65])),
+            _t2('cim:uint16', st.just(65)),
+            _t2('inst', st.none()))
+    if t == 'reference':
+        return st.one_of(
+            _t2('ipath', S.instance_path(depth=0)),
+            _t2('ipath', S.instance_path(depth=0)),
+            _t2('cpath', S.class_path()),
+            _t2('str', st.sampled_from(_URIS)),
+            _t2('bytes', st.just(b'C.k=1')),
+            _t2('int', st.just(1)), _t2('inst', st.none()))
+    raise ValueError(t)
+
+
+@functools.lru_cache(maxsize=None)
+def _near_kb(t):
+    "scalars a keybinding can hold"
+    return _near_scalar(t).filter(
+        lambda r: r[0] in _KB_KINDS or r[0].startswith('cim:'))
+
+
+@functools.lru_cache(maxsize=None)
+def _near_value(t, arr, kinds=None):
+    "scalar / list / None recipe for an element of type t (arr: is array)"
+    # kinds: the value is for a source object that infers the type from it
+    sc = _near_scalar(t)
+    if kinds is not None:
+        sc = sc.filter(lambda r: r[0] in kinds or
+                       (r[0].startswith('cim:') and 'cim:' in kinds))
+    lst = st.lists(st.one_of(sc, sc, sc, st.just(('none', None))),
+                   max_size=3).map(lambda l: ('list', l))
+    none = st.just(('none', None))
+    if kinds is not None:
+        none = sc
+    if arr:
+        return st.one_of(lst, lst, lst, lst, lst, lst, none, sc)
+    return st.one_of(sc, sc, sc, sc, sc, sc, sc, sc, none, lst)
+
+
+def _etype(cls, t):
+    "qualifiers cannot have the type reference"
+    return 'string' if t == 'reference' and cls in ('qual', 'qdecl') else t
+
+
+@st.composite
+def _seq_example(draw):
+    tdraw = st.sampled_from(_SEQ_TYPES)
+    adraw = st.sampled_from([False, False, True])
+    insts = []
+    for _ in range(2):
+        names = draw(st.lists(st.sampled_from(_SEQ_NAMES), min_size=2,
+                              max_size=4, unique=True))
+        props = []
+        for n in names:
+            t, a = draw(tdraw), draw(adraw)
+            iv = draw(S.array_of(S.scalar(t, ref_depth=0), max_size=2)
+                      if a else S.scalar(t, ref_depth=0))
+            props.append((n, t, a, iv))
+        insts.append(props)
+    elems = []
+    for _ in range(2):
+        c, t, a = draw(st.sampled_from(_SEQ_ECLS)), draw(tdraw), draw(adraw)
+        elems.append((c, _etype(c, t), a))
+    # types as initially declared: used to aim the values of the steps
+    ityp = [{n: (t, a) for n, t, a, _ in props} for props in insts]
+
+    def aim(i, name):
+        return ityp[i].get(name) or (draw(tdraw), draw(adraw))
+
+    def items(i, kinds=None, scalars=False):
+        names = draw(st.lists(st.sampled_from(_SEQ_NAMES + ['Missing']),
+                              min_size=1, max_size=3, unique=True))
+        out = []
+        for n in names:
+            t, a = aim(i, n)
+            if scalars:
+                a = False
+                v = draw(_near_kb(t))
+            else:
+                v = draw(_near_value(t, a, kinds))
+            out.append((draw(st.sampled_from(['asis', 'asis', 'lower',
+                                              'upper'])), n, v))
+        return out
+
+    steps = []
+    for _ in range(draw(st.integers(2, 9))):
+        k = draw(st.sampled_from(
+            ['set'] * 3 + ['upx'] * 6 + ['upd'] * 2 + ['item'] * 2 +
+            ['itemp', 'retype', 'copyprop', 'del'] +
+            ['eset'] * 3 + ['eretype', 'ecopy']))
+        i = draw(st.integers(0, 1))
+        if k in ('set', 'item', 'copyprop', 'del'):
+            n = draw(st.sampled_from(_SEQ_NAMES))
+            t, a = aim(i, n)
+            if k == 'set':
+                steps.append((k, i, n, draw(_near_value(t, a))))
+            elif k == 'item':
+                steps.append((k, i, n, draw(_near_value(t, a))))
+            else:
+                steps.append((k, i, n))
+        elif k == 'itemp':
+            n = draw(st.sampled_from(_SEQ_NAMES))
+            t, a = draw(tdraw), draw(adraw)
+            steps.append((k, i, n, t, a, draw(_near_value(t, a))))
+        elif k == 'retype':
+            n = draw(st.sampled_from(_SEQ_NAMES))
+            t = draw(tdraw)
+            steps.append((k, i, n, t, draw(_near_value(t, aim(i, n)[1]))))
+        elif k == 'upx':
+            src = draw(st.sampled_from(
+                ['dict', 'tuples', 'kwargs', 'mixed', 'nocase', 'path',
+                 'path', 'path', 'inst', 'inst', 'inst', 'state', 'state']))
+            if src == 'path':
+                its = items(i, _KB_KINDS, scalars=True)
+            elif src == 'inst':
+                its = items(i, _INFER_KINDS + ('cim:',))
+            elif src == 'state':
+                its = []
+            else:
+                its = items(i)
+            steps.append((k, i, src, its,
+                          draw(st.sampled_from([0, 0, 0, 1]))))
+        elif k == 'upd':
+            src = draw(st.sampled_from(['dict', 'tuples', 'kwargs', 'inst',
+                                        'state', 'props']))
+            its = [] if src == 'state' else items(i, _INFER_KINDS + ('cim:',))
+            steps.append((k, i, src, its, draw(st.sampled_from([0, 0, 1]))))
+        elif k == 'eset':
+            _, t, a = elems[i]
+            steps.append((k, i, draw(_near_value(t, a))))
+        elif k == 'eretype':
+            t = _etype(elems[i][0], draw(tdraw))
+            steps.append((k, i, t, draw(_near_value(t, elems[i][2]))))
+        else:
+            steps.append((k, i))
+    return (insts, elems, steps)
+
+
+def typed_seq_strategy():
+    return _seq_example()
+
+
+def _same(a, b):
+    "equal, and of exactly the same classes (NaN equals NaN)"
+    if isinstance(a, list) or isinstance(b, list):
+        return (isinstance(a, list) and isinstance(b, list) and
+                len(a) == len(b) and all(_same(x, y) for x, y in zip(a, b)))
+    if type(a) is not type(b):
+        return False
+    if isinstance(a, float):
+        if math.isnan(a) or math.isnan(b):
+            return math.isnan(a) and math.isnan(b)
+        return a == b and math.copysign(1, a) == math.copysign(1, b)
+    if isinstance(a, CIMDateTime):
+        return a == b and str(a) == str(b)
+    return a == b
+
+
+def _keyform(form, name):
+    return {'asis': name, 'lower': name.lower(), 'upper': name.upper()}[form]
+
+
+def _new_elem(cls, t, a):
+    if cls == 'prop':
+        return CIMProperty('e', None, type=t, is_array=a)
+    if cls == 'param':
+        return CIMParameter('e', t, is_array=a)
+    if cls == 'qual':
+        return CIMQualifier('e', None, type=t)
+    return CIMQualifierDeclaration('e', t, is_array=a)
+
+
+def _seq_source(src, its, other):
+    """
+    Build the positional/keyword arguments of update()/update_existing() from
+    the item recipes.  Returns (args, kwargs, [(key, value)...] as the source
+    yields them, objects whose list values must not be shared).
+    """
+    pairs = [(_keyform(f, n), _vbuild(v)) for f, n, v in its]
+    if src == 'dict':
+        return (dict(pairs),), {}, pairs
+    if src == 'tuples':
+        return (pairs,), {}, pairs
+    if src == 'kwargs':
+        return (), dict(pairs), pairs
+    if src == 'mixed':
+        return (dict(pairs[:1]), pairs[1:2]), dict(pairs[2:]), pairs
+    if src == 'nocase':
+        from pywbem._nocasedict import NocaseDict
+        return (NocaseDict(pairs),), {}, pairs
+    if src == 'path':
+        o = CIMInstanceName('Src', keybindings=pairs)
+        return (o,), {}, list(o.items())
+    if src == 'inst':
+        o = CIMInstance('Src', properties=pairs)
+        return (o,), {}, list(o.items())
+    if src == 'props':
+        ps = [CIMProperty(k, v) for k, v in pairs]
+        return ([(p.name, p) for p in ps],), {}, [(p.name, p) for p in ps]
+    if src == 'state':
+        return (other,), {}, None
+    raise ValueError(src)
+
+
+class _Seq:
+    "real objects + model of one typed_seq example"
+
+    def __init__(self, ctx, insts, elems):
+        self.ctx = ctx
+        self.insts = []
+        self.model = []     # per instance: {lower name: rec}
+        for props in insts:
+            ps = [CIMProperty(n, S.build_value(t, v), type=t, is_array=a)
+                  for n, t, a, v in props]
+            self.insts.append(CIMInstance('C', properties=ps))
+            self.model.append({
+                n.lower(): dict(name=n, type=t, is_array=a,
+                                value=S.build_value(t, v))
+                for n, t, a, v in props})
+        self.elems = [_new_elem(*e) for e in elems]
+        self.emodel = [dict(name='e', type=t,
+                            is_array=None if c == 'qual' else a, value=None)
+                       for c, t, a in elems]
+        self.extra = []     # source objects of the current step
+        self.frozen = []    # (copy source object, rec at the time of copy)
+        self.failed = False
+
+    def fail(self, sig, detail):
+        self.failed = True
+        self.ctx.fail(sig, detail)
+
+    # -- model ------------------------------------------------------------
+
+    @staticmethod
+    def conv(rec, fresh):
+        "model of giving `fresh` to the element rec: new rec or None=reject"
+        try:
+            v = cimvalue(fresh, rec['type'])
+        except (TypeError, ValueError):
+            return None
+        return dict(rec, value=v)
+
+    @staticmethod
+    def rec_of(p):
+        return dict(name=p.name, type=p.type, is_array=p.is_array,
+                    value=p.value)
+
+    def shape_ok(self, o):
+        """
+        The value setters do not compare the shape of the value with
+        is_array, the constructors (and thus copy()) do: copy() is only
+        called when the shapes agree.
+        """
+        a = getattr(o, 'is_array', None)
+        if a is None or o.value is None or isinstance(o.value, list) == a:
+            return True
+        self.ctx.event('seq:copy-skipped-shape-mismatch')
+        return False
+
+    # -- checks -----------------------------------------------------------
+
+    def all_elements(self):
+        for i, inst in enumerate(self.insts):
+            for p in inst.properties.values():
+                yield 'inst%d.%s' % (i, p.name), p
+        for e, o in enumerate(self.elems):
+            yield 'elem%d' % e, o
+
+    def check(self, route, rejected):
+        "True if the state is as the property and the model say"
+        ctx = self.ctx
+        # 1. exactly the class of the CIM type (property statement)
+        for where, o in self.all_elements():
+            v = o.value
+            for item in (v if isinstance(v, list) else [v]):
+                if _class_ok(o.type, item, True):
+                    continue
+                if o.type in ('string', 'char16') and \
+                        not isinstance(item, (bytes, str)):
+                    # known finding of sub-check cimvalue (non-text object
+                    # kept for a string type); the model check below still
+                    # demands that it is what a fresh cimvalue() gives
+                    ctx.event('seq:known-nontext-held-for-string')
+                    continue
+                grp = ('int' if o.type in S.INT_TYPES else
+                       'real' if o.type in S.REAL_TYPES else
+                       'string' if o.type in ('string', 'char16')
+                       else o.type)
+                self.fail('typed-seq:%s:holds-wrong-class-for-%s' %
+                         (route, grp),
+                         '%s (%s, type %r) holds %r after %s' %
+                         (where, type(o).__name__, o.type, item, route))
+                return False
+        # 2. model
+        what = 'state-after-rejection-differs-from-model' if rejected \
+            else 'differs-from-fresh-conversion'
+        for i, inst in enumerate(self.insts):
+            m = self.model[i]
+            have = sorted(k.lower() for k in inst.properties.keys())
+            if have != sorted(m):
+                self.fail('typed-seq:%s:property-set-differs' % route,
+                         'inst%d has %r, model %r' % (i, have, sorted(m)))
+                return False
+            for p in inst.properties.values():
+                r = m[p.name.lower()]
+                if p.type != r['type'] or p.is_array != r['is_array'] or \
+                        not _same(p.value, r['value']):
+                    self.fail('typed-seq:%s:%s' % (route, what),
+                             'inst%d.%s is (%r, array %r) %r, fresh '
+                             'conversion gives (%r, array %r) %r' %
+                             (i, p.name, p.type, p.is_array, p.value,
+                              r['type'], r['is_array'], r['value']))
+                    return False
+        for e, o in enumerate(self.elems):
+            r = self.emodel[e]
+            if o.type != r['type'] or not _same(o.value, r['value']) or \
+                    (r['is_array'] is not None and
+                     o.is_array != r['is_array']):
+                self.fail('typed-seq:%s:%s' % (route, what),
+                         'elem%d %s is (%r) %r, fresh conversion gives '
+                         '(%r) %r' % (e, type(o).__name__, o.type, o.value,
+                                      r['type'], r['value']))
+                return False
+        for o, r in self.frozen:
+            if o.type != r['type'] or not _same(o.value, r['value']):
+                self.fail('typed-seq:%s:original-changed-through-copy' % route,
+                         '%r should still hold %r' % (o, r['value']))
+                return False
+        # 3. no list shared between two elements / an element and the source
+        seen = {}
+        objs = list(self.all_elements()) + \
+            [('source', o) for o in self.extra] + \
+            [('copied-from', o) for o, _ in self.frozen]
+        for where, o in objs:
+            v = o if isinstance(o, list) else o.value
+            if isinstance(v, list):
+                w = seen.setdefault(id(v), (where, id(o)))
+                if w[1] != id(o):
+                    self.fail('typed-seq:%s:array-value-shared-between-'
+                             'objects' % route,
+                             '%s and %s hold the same list object %r' %
+                             (w[0], where, v))
+                    return False
+        return True
+
+    # -- steps ------------------------------------------------------------
+
+    def run(self, step):
+        """
+        Run one step on the real objects and on the model; returns (route,
+        rejected) or None if the step does not apply.
+        """
+        k, i = step[0], step[1]
+        if k in ('set', 'retype', 'copyprop', 'del'):
+            inst, m = self.insts[i], self.model[i]
+            n = step[2]
+            if n.lower() not in m:
+                return None
+            p = inst.properties[n]
+            r = m[n.lower()]
+            if k == 'del':
+                del inst[n.upper()]
+                del m[n.lower()]
+                return 'del', False
+            if k == 'copyprop':
+                if not self.shape_ok(p):
+                    return None
+                c = p.copy()
+                self.frozen = [(p, dict(r))]
+                inst.properties[n] = c
+                return 'copy', False
+            return self.assign(p, r, m, n.lower(), step)
+        if k in ('eset', 'eretype', 'ecopy'):
+            o, r = self.elems[i], self.emodel[i]
+            if k == 'ecopy':
+                if not self.shape_ok(o):
+                    return None
+                self.frozen = [(o, dict(r))]
+                self.elems[i] = o.copy()
+                return 'copy', False
+            return self.assign(o, r, self.emodel, i, step)
+        if k in ('item', 'itemp'):
+            return self.setitem(step)
+        return self.update(step)
+
+    def assign(self, o, r, mdict, mkey, step):
+        "value setter, alone or after the type setter"
+        if step[0] in ('retype', 'eretype'):
+            route, newtype, vrec = 'type+value-setter', step[-2], step[-1]
+            r2 = dict(r, type=newtype)
+        else:
+            route, newtype, vrec = 'value-setter', None, step[-1]
+            r2 = r
+        new = self.conv(r2, _vbuild(vrec))
+        value = _vbuild(vrec)
+        if isinstance(value, list):
+            self.extra.append(value)
+        oldtype = o.type
+        if newtype is not None:
+            o.type = newtype
+        try:
+            o.value = value
+        except (TypeError, ValueError):
+            if newtype is not None:
+                o.type = oldtype
+            if new is not None:
+                self.fail('typed-seq:%s:rejects-what-fresh-conversion-'
+                              'accepts' % route,
+                              '%s.value = %r (type %r)' %
+                              (type(o).__name__, value, r2['type']))
+                return None
+            return route, True
+        if new is None:
+            self.fail('typed-seq:%s:accepts-what-fresh-conversion-'
+                          'rejects' % route,
+                          '%s.value = %r (type %r) now %r' %
+                          (type(o).__name__, value, r2['type'], o.value))
+            return None
+        mdict[mkey] = new
+        return route, False
+
+    def setitem(self, step):
+        k, i, n = step[:3]
+        inst, m = self.insts[i], self.model[i]
+
+        def build():
+            if k == 'itemp':
+                return CIMProperty(n, _vbuild(step[5]), type=step[3],
+                                   is_array=step[4])
+            return _vbuild(step[3])
+        route = 'setitem'
+        try:
+            fresh = build()
+            fp = fresh if isinstance(fresh, CIMProperty) \
+                else CIMProperty(n, fresh)
+            new = self.rec_of(fp)
+        except (TypeError, ValueError):
+            new = None
+        try:
+            value = build()
+        except (TypeError, ValueError):
+            return None        # the CIMProperty offered cannot be built
+        if isinstance(value, (list, CIMProperty)):
+            self.extra.append(value)
+        try:
+            inst[n] = value
+        except (TypeError, ValueError):
+            if new is not None:
+                self.fail('typed-seq:setitem:rejects-what-fresh-'
+                              'CIMProperty-accepts', 'inst[%r] = %r' %
+                              (n, value))
+                return None
+            return route, True
+        if new is None:
+            self.fail('typed-seq:setitem:accepts-what-fresh-CIMProperty-'
+                          'rejects', 'inst[%r] = %r now %r' %
+                          (n, value, inst.properties[n]))
+            return None
+        m[n.lower()] = new
+        return route, False
+
+    def update(self, step):
+        k, i, src, its, flag = step
+        inst, m = self.insts[i], self.model[i]
+        if k == 'upd' and src == 'state':
+            flag = 0        # update(self) / properties = self: not modelled
+        j = i if flag else 1 - i
+        try:
+            _, _, fresh_pairs = _seq_source(src, its, None)
+            args, kwargs, _ = _seq_source(src, its, self.insts[j])
+        except (TypeError, ValueError):
+            self.ctx.event('seq:source-not-buildable')
+            return None
+        if src == 'state':
+            fresh_pairs = [(r['name'], r['value'])
+                           for r in self.model[j].values()]
+        for a in args:
+            if isinstance(a, CIMInstance):
+                self.extra.extend(a.properties.values())
+        for a in list(args) + [kwargs]:
+            if isinstance(a, dict):
+                self.extra.extend(v for v in a.values()
+                                  if isinstance(v, list))
+            elif isinstance(a, list):
+                self.extra.extend(
+                    x if isinstance(x, CIMProperty) else x[1] for x in a
+                    if isinstance(x, CIMProperty) or isinstance(x[1], list))
+        # model: in the order the source yields its items, up to the first
+        # rejected one
+        if k == 'upx':
+            route = 'update_existing(%s)' % src
+            replace = False
+        else:
+            replace = bool(flag) and src != 'state'
+            route = ('properties-setter(%s)' if replace else 'update(%s)') \
+                % src
+        mnew = {} if replace else dict(m)
+        expect_reject = False
+        for key, v in fresh_pairs:
+            lk = key.lower()
+            if k == 'upx':
+                if lk not in mnew:
+                    continue
+                new = self.conv(mnew[lk], v)
+            else:
+                try:
+                    fp = v if isinstance(v, CIMProperty) \
+                        else CIMProperty(key, v)
+                    new = self.rec_of(fp)
+                except (TypeError, ValueError):
+                    new = None
+            if new is None:
+                expect_reject = True
+                break
+            mnew[lk] = new
+        try:
+            if k == 'upx':
+                inst.update_existing(*args, **kwargs)
+            elif replace:
+                inst.properties = args[0] if args else kwargs
+            else:
+                inst.update(*args, **kwargs)
+        except (TypeError, ValueError):
+            rejected = True
+        else:
+            rejected = False
+        if rejected != expect_reject:
+            self.fail(
+                'typed-seq:%s:%s' % (route, 'rejects-what-fresh-conversion-'
+                                     'accepts' if rejected else
+                                     'accepts-what-fresh-conversion-rejects'),
+                '%s with %r %r on %r' % (route, args, kwargs, inst))
+            return None
+        self.model[i] = mnew
+        return route, rejected
+
+
+def typed_seq_oracle(ctx, ex):
+    insts, elems, steps = ex
+    seq = _Seq(ctx, insts, elems)
+    classes = set()
+    ok = seq.check('init', False)
+    nontriv = False
+    for step in steps:
+        if not ok:
+            break
+        seq.extra = []
+        res = seq.run(step)
+        if res is None:
+            ctx.event('seq:step-not-applicable')
+            if seq.failed:
+                break
+            continue
+        route, rejected = res
+        ctx.event('seq:step:' + route)
+        ctx.event('seq:rejected' if rejected else 'seq:accepted')
+        classes.add('seq:has:' + route.split('(')[0])
+        if route.startswith('update_existing') and not rejected:
+            nontriv = True
+        ok = seq.check(route, rejected)
+    ctx.case(nontrivial=nontriv or len(classes) > 1, classes=sorted(classes))
+
+
 SUBCHECKS = [
     Sub('int_exhaustive', enumerate=int_exhaustive, quick=(16, 0),
         thorough=(16, 0)),
@@ -559,6 +1223,8 @@ SUBCHECKS = [
         thorough=(16, 0)),
     Sub('reals', strategy=reals_strategy, oracle=reals_oracle,
         quick=(8, 4000), thorough=(16, 100000)),
+    Sub('typed_seq', strategy=typed_seq_strategy, oracle=typed_seq_oracle,
+        quick=(8, 300), thorough=(16, 8000)),
 ]
 SUBCHECKS[0].replay = int_replay
 SUBCHECKS[4].replay = datetime_offsets_replay
